@@ -17,6 +17,9 @@ func checkC17(p *Program, r *Reporter) {
 		"Contiguity/completeness of the listed range, stored content, buffer bounds and index safety of the circular buffers are not decided."
 	r.NotCovered = "contiguity and completeness of the listed range for arbitrary arrival orders, equality of stored and uploaded bytes, bounds of storage and buffers, index safety of circular buffers"
 	r.Assumptions = []string{"os.Rename within one directory is atomic", "E2/E3 assumptions as in C19/C08"}
+	if shf := p.mustFunc(r, pkgRecv, "(*Receiver).SegmentHandlerFunc"); shf != nil {
+		sameNumberRule(p, r, shf)
+	}
 	gen := p.mustFunc(r, pkgRecv, "(*segmentTimelineGenerator).generateSegmentTimelineNrMPD")
 	asd := p.mustFunc(r, pkgRecv, "(*segmentTimelineGenerator).addSegmentData")
 	run := p.mustFunc(r, pkgRecv, "(*channel).run")
@@ -149,6 +152,47 @@ func checkC17(p *Program, r *Reporter) {
 	if rename == nil {
 		r.Violate("E5-ATOMIC", shortFn(gen), "rename", p.pos(gen.Pos()), "the timeline MPD is no longer published by os.Rename onto its final name", nil)
 	} else {
+		// the temporary file lives in the directory of the file it replaces: both names are joined onto the
+		// same directory value (another directory is shared with other channels, and a rename across
+		// directories is no longer the replace-in-place the readers rely on)
+		dirOf := func(v ssa.Value) ssa.Value {
+			for i := 0; i < 4; i++ {
+				c, ok := v.(*ssa.Call)
+				if !ok || c.Call.StaticCallee() == nil || c.Call.StaticCallee().String() != "path/filepath.Join" || len(c.Call.Args) == 0 {
+					return nil
+				}
+				// variadic: the first element stored into the argument slice
+				var first ssa.Value
+				sl, ok := c.Call.Args[0].(*ssa.Slice)
+				if !ok {
+					return nil
+				}
+				al, ok := sl.X.(*ssa.Alloc)
+				if !ok || al.Referrers() == nil {
+					return nil
+				}
+				for _, ref := range *al.Referrers() {
+					if ia, ok := ref.(*ssa.IndexAddr); ok && ia.Referrers() != nil {
+						if k, isC := constInt(ia.Index); isC && k == 0 {
+							for _, r2 := range *ia.Referrers() {
+								if st, ok := r2.(*ssa.Store); ok {
+									first = st.Val
+								}
+							}
+						}
+					}
+				}
+				return first
+			}
+			return nil
+		}
+		if len(rename.Call.Args) == 2 {
+			d1, d2 := dirOf(rename.Call.Args[0]), dirOf(rename.Call.Args[1])
+			if d1 != nil && d2 != nil {
+				r.Decide(sameValue(d1, d2), "E5-ATOMIC", shortFn(gen), "same-directory", p.pos(rename.Pos()), "temporary and final name are joined onto the same directory",
+					"the temporary file is created in another directory than the file it replaces ("+roleKey(d1)+" vs "+roleKey(d2)+"): a directory shared by several channels makes their writers overwrite each other's temporary file", nil)
+			}
+		}
 		isTmp := func(v ssa.Value) bool { _, suffixed := pathUsesFinalName(v); return suffixed }
 		done := false
 		// a helper that receives the temporary name, called on every path to the rename, its error tested
